@@ -90,6 +90,9 @@ pub(crate) fn flags_now() -> u8 {
 }
 
 fn do_action(this: &Node, act: Act, target: u8) {
+    if !g().actions_on {
+        return;
+    }
     let id = this.id as usize;
     match act {
         Act::Nothing | Act::Fault => {}
@@ -164,7 +167,7 @@ fn do_action(this: &Node, act: Act, target: u8) {
 unsafe impl Trace for Node {
     fn trace(&self, ctx: &mut Context<'_>) {
         let gs = g();
-        let id = self.id as usize;
+        let id = (self.id as usize) % MAX_OBJ;
         gs.n_trace += 1;
         gs.trace_calls[id] += 1;
         if !matches!(crate::state::is_tracing(), Ok(true)) {
@@ -191,7 +194,7 @@ unsafe impl Trace for Node {
 impl Finalize for Node {
     fn finalize(&self) {
         let gs = g();
-        let id = self.id as usize;
+        let id = (self.id as usize) % MAX_OBJ;
         gs.n_fin += 1;
         gs.seq += 1;
         gs.finalize_calls[id] += 1;
@@ -238,7 +241,7 @@ impl Finalize for Node {
 impl Drop for Node {
     fn drop(&mut self) {
         let gs = g();
-        let id = self.id as usize;
+        let id = (self.id as usize) % MAX_OBJ;
         gs.n_drop += 1;
         gs.seq += 1;
         gs.drop_calls[id] += 1;
